@@ -31,6 +31,8 @@ pub fn spec_matches(et: &[u8], p: &[u8]) -> bool {
         true
     }
 }
+// std::collections::HashMap::new() seeds RandomState from a thread-local, which Kani cannot model: fixed keys instead
+#[cfg(kani)] pub fn stub_random_state() -> std::hash::RandomState { unsafe { std::mem::transmute::<(u64, u64), std::hash::RandomState>((0, 0)) } }
 pub fn pp(name: &str) -> PipelinePlacement { PipelinePlacement { name: String::from(name), source: String::new(), worker_affinity: None, replicas: 1, partition_key: None } }
 pub fn route(to: &str, pats: Vec<String>) -> InterPipelineRoute { InterPipelineRoute { from_pipeline: String::new(), to_pipeline: String::from(to), event_types: pats, nats_subject: None } }
 pub fn group(pipelines: Vec<PipelinePlacement>, routes: Vec<InterPipelineRoute>) -> DeployedPipelineGroup {
@@ -55,7 +57,7 @@ vpv_cell!(#[kani::unwind(7)] c34_matches_len3__thorough, "C34/event_type_matches
     ok });
 
 // two routes with one 1-character pattern each: the FIRST matching route wins, otherwise the first pipeline
-vpv_cell!(#[kani::unwind(8)] c34_find_target_two_routes, "C34/find_target_pipeline/first matching route in declaration order, else the first pipeline (2 routes x 1 pattern, 1-char strings)",
+vpv_cell!(#[kani::stub(std::hash::RandomState::new, stub_random_state)] #[kani::unwind(8)] c34_find_target_two_routes, "C34/find_target_pipeline/first matching route in declaration order, else the first pipeline (2 routes x 1 pattern, 1-char strings)",
   (e: u8, p1: u8, p2: u8), {
     let et = mkstr(1, [e, 0, 0]);
     let (s1, s2) = (mkstr(1, [p1, 0, 0]), mkstr(1, [p2, 0, 0]));
@@ -67,7 +69,7 @@ vpv_cell!(#[kani::unwind(8)] c34_find_target_two_routes, "C34/find_target_pipeli
     std::mem::forget(g); std::mem::forget(et);
     ok });
 
-vpv_cell!(#[kani::unwind(8)] c34_find_target_two_patterns, "C34/find_target_pipeline/patterns of one route are tried in order; no pipelines and no match -> None",
+vpv_cell!(#[kani::stub(std::hash::RandomState::new, stub_random_state)] #[kani::unwind(8)] c34_find_target_two_patterns, "C34/find_target_pipeline/patterns of one route are tried in order; no pipelines and no match -> None",
   (e: u8, p1: u8, p2: u8, has_pipeline: bool), {
     let et = mkstr(1, [e, 0, 0]);
     let (s1, s2) = (mkstr(1, [p1, 0, 0]), mkstr(1, [p2, 0, 0]));
